@@ -56,7 +56,7 @@ static void gen_descriptor(void)
         for (int g = 0; g < MAXGRP; g++) gdis[g] = chance(NG > 2 ? 40 : 15);
         for (int i = 0; i < ND; i++) {
                 struct dcmd *d = &D[i]; memset(d, 0, sizeof *d);
-                snprintf(d->name, sizeof d->name, "+C%02d%s", i, chance(30) ? "LONGER" : chance(20) ? "x" : "");
+                snprintf(d->name, sizeof d->name, "+C%02d%s", i, chance(30) ? "LONGER" : chance(20) ? "x" : chance(15) ? "&W" : chance(15) ? "#$@_%" : "");      /* every character that is legal in a name appears in some name */
                 d->has_desc = chance(40); snprintf(d->desc, sizeof d->desc, "d%d%s", i, chance(50) ? " some text" : chance(30) ? " 0-100% %s%d" : "");      /* descriptor strings are data, not formats */ if (chance(8)) d->desc[0] = 0;      /* an empty description is still a description: the newline is printed */
                 d->only_test = chance(12); d->disable = chance(12); d->implicit = chance(10); d->grp = i < NG ? i : (int)rn((unsigned)NG);
                 d->hmask = rn(16); if (d->implicit) d->hmask &= 4;
@@ -151,7 +151,7 @@ static void check_test(int wi, int capclass)
                  * (the event text is formatted while the command buffer is full of text and partly sent) */
                 bool busy = testable && (size_t)tl + 1 <= W.capA && !test_chain && chance(40); size_t a_units = 0;
                 if (busy) {
-                        static uint8_t bits[1200]; size_t k = 1 + rn((unsigned)tl + 2);
+                        static uint8_t bits[1200]; size_t k = rn((unsigned)tl + 3);
                         for (size_t i = 0; i < sizeof bits; i++) bits[i] = (uint8_t)(i < k || i >= k + 60);
                         in_puts(line); in_putc('\n'); sch_bits(&WS, bits, sizeof bits);
                         for (long i = 0; i < 20000 && OUTN < k; i++) (void)svc();
@@ -192,7 +192,7 @@ static void check_list_via(const char *helpname, const char *request)
          * and the output gets stuck after its first k bytes; the list lines must come out whole all the same */
         int evc = -1; if (chance(30)) for (size_t i = 0; i < W.ncmds; i++) if (cmd_enabled((int)i) && ref_has_vars(W.cmd[i])) { evc = (int)i; break; }
         if (evc >= 0) {
-                static uint8_t bits[400]; size_t k = 1 + rn(12);
+                static uint8_t bits[400]; size_t k = rn(13);
                 for (size_t i = 0; i < sizeof bits; i++) bits[i] = (uint8_t)(i < k || i >= k + 70);
                 in_reset(); in_puts(request); in_putc('\n'); ngot = 0; out_reset(); units_reset();
                 sch_bits(&WS, bits, sizeof bits);
@@ -289,6 +289,40 @@ static void view_groups_case(void)
         CNT("lists_of_tables_with_view_groups");
         nontrivial(hash_u64((uint64_t)(n * 64 + k * 8 + d_full * 4 + d_view * 2 + first_is_view), 1950));
 }
+/* the '=?' text of a command overflows its buffer exactly at a separator (the text up to a ',' is capacity - 1 characters long) while the '=?' text of an event
+ * sits formatted, not yet sent, in the other half of a shared buffer: the request is answered ERROR, the event line comes out whole */
+static void separator_overflow_case(void)
+{
+        w_begin();
+        struct cat_command *a = w_group(3, false);
+        a[0].name = xstr("+T"); unsigned nv = 2 + rn(3);
+        struct cat_variable *v = w_vars(&a[0], nv);
+        for (unsigned j = 0; j < nv; j++) { char nm[40]; snprintf(nm, sizeof nm, chance(50) ? "parameter_number_%u" : "p%u", j); v[j].name = xstr(nm); v[j].type = (cat_var_type)rn(5); v[j].access = (cat_var_access)rn(3); size_t sz = v[j].type <= CAT_VAR_NUM_HEX ? (size_t[]){ 1, 2, 4 }[rn(3)] : 1 + rn(8); uint8_t *d = w_vdata(&v[j], sz); memset(d, 'a', sz); d[sz - 1] = 0; }
+        a[1].name = xstr("+E"); { struct cat_variable *e = w_vars(&a[1], 1); e->type = CAT_VAR_UINT_DEC; uint8_t *d = w_vdata(e, 1); *d = 7; }
+        a[2].name = xstr("#H"); a[2].run = h_run;
+        W.capA = 4096;
+        char ref[800], refe[64]; int tl = ref_fmt_test(&a[0], "\n", ref, sizeof ref); int el = ref_fmt_test(&a[1], "\n", refe, sizeof refe);
+        size_t offs[8]; int no = 0; for (int i = 0; i < tl; i++) if (ref[i] == ',' && (size_t)i >= (size_t)el + 2 && no < 8) offs[no++] = (size_t)i;
+        if (no == 0) { CNT("separator_overflow_cases_skipped"); return; }
+        size_t cap = offs[rn((unsigned)no)] + 1;          /* the text in front of that ',' has cap - 1 characters: the ',' is the last byte of the buffer */
+        w_buffers(cap * 2 + rn(2), true, 0);
+        w_init((int)rn(2));
+        POLICY = policy; ON_UNIT = on_unit; test_chain = false;
+        static uint8_t bits[300]; for (size_t i = 0; i < sizeof bits; i++) bits[i] = (uint8_t)(i >= 80);
+        snprintf(note, sizeof note, "'=?' text of +T (%d bytes) on a command capacity of %zu: it overflows exactly at a separator while the '=?' event text of +E waits, formatted, in the other half", tl, cap);
+        in_reset(); in_puts("AT+T=?\n"); ngot = 0; out_reset(); units_reset();
+        sch_bits(&WS, bits, sizeof bits);
+        (void)cat_trigger_unsolicited_event(W.at, &a[1], CAT_CMD_TYPE_TEST);
+        bool q = run_quiet(quiet_bound() + 20000) >= 0;
+        sch_eager(&WS);
+        if (!q) { inconclusive("no quiescence"); return; }
+        int nu = 0, na = 0; bool uok = true, aok = true;
+        for (int i = 0; i < ngot; i++) { if (got[i].prod == 'U') { nu++; if (strcmp(got[i].text, refe) != 0) uok = false; } else { na++; if (!(got[i].type == 'C' && strcmp(got[i].text, "ERROR") == 0)) aok = false; } }
+        CNT("separator_overflow_cases");
+        if (nu != 1 || !uok) viol("C19", "event-test-text-differs", "the TEST event of +E must print \"%s\" once; %d event unit(s) seen%s", refe, nu, uok ? "" : ", with another text");
+        else if (na != 1 || !aok) viol("C19", "truncated-instead-of-error", "AT+T=? (text of %d bytes, capacity %zu) must be answered with a single ERROR", tl, cap);
+        nontrivial(hash_u64((uint64_t)cap, hash_bytes(ref, (size_t)tl, 1960)));
+}
 #define N_BIG 10
 struct case_budget chk_budget(const char *tier)
 {
@@ -300,6 +334,7 @@ void chk_run_case(uint64_t seed, long c, bool is_sweep)
         (void)seed; note[0] = 0;
         if (is_sweep) { sweep_big_list(c); return; }
         if (chance(8)) { view_groups_case(); return; }
+        if (chance(6)) { separator_overflow_case(); return; }
         gen_descriptor();
         test_chain = chance(50);
         int target = (int)rn((unsigned)ND - 2); if (strcmp(D[target].name, "+C") == 0) target = 0;
